@@ -33,8 +33,9 @@ def _is_destroyer(x):
     return False
 
 
-def rule_U7(chk, fn, g, shift_renames, dump_renames, dump_local, counters=("_maximum_number_of_backups", "_number_of_backups",
-                                                                           "_number_of_restarts")):
+def rule_U7(chk, fn, g, shift_renames, dump_renames, dump_local, name_helpers=None,
+            counters=("_maximum_number_of_backups", "_number_of_backups", "_number_of_restarts")):
+    name_helpers = name_helpers or {}
     mx_n, nb_n, nr_n = counters
     calls = []
     for node in g.nodes:
@@ -68,6 +69,13 @@ def rule_U7(chk, fn, g, shift_renames, dump_renames, dump_local, counters=("_max
                     if any("restart." in t for t in strs) and any(".back" in t for t in strs) and len(ints) == 1:
                         index_ast[root["id"]] = ints[0]
 
+    str_inits = {}
+    for s_ in C.walk_stmt(fn["body"]):
+        if s_.get("k") == "Decl":
+            for d_ in s_["d"]:
+                if d_.get("init") is not None and "string" in (d_.get("t") or "") and d_["id"] != dump_local["id"]:
+                    str_inits[d_["id"]] = d_["init"]
+
     def target_index(e):
         e = C.strip_casts(e)
         while True:
@@ -78,8 +86,12 @@ def rule_U7(chk, fn, g, shift_renames, dump_renames, dump_local, counters=("_max
                 e = C.strip_casts(e["a"][0])
                 continue
             break
+        if e.get("k") == "Call" and e.get("fn") in name_helpers and e.get("a"):
+            return e["a"][0]          # a helper that builds `restart.<k>.back` from k
         if e.get("k") == "Ref" and e.get("id") in index_ast:
             return index_ast[e["id"]]
+        if e.get("k") == "Ref" and e.get("id") in str_inits:
+            return target_index(str_inits[e["id"]])
         if e.get("k") == "Ref" and e.get("id") == dump_local["id"]:
             return "dump"
         return None
